@@ -78,6 +78,42 @@ func c11() []*Ob {
 				if fn == nil {
 					return
 				}
+				// constant folding of the initialiser gives the table itself, whatever the loop looks like
+				if cells, folded := c.P.EvalTables(fn); folded {
+					var marked []int64
+					var table *ssa.Global
+					for g, m := range cells {
+						if g.Name() != "isUpperASCII" && len(cells) > 1 {
+							continue
+						}
+						table = g
+						for i, v := range m {
+							if v != 0 {
+								marked = append(marked, i)
+							}
+						}
+					}
+					if table != nil {
+						want := map[int64]bool{}
+						for ch := int64('A'); ch <= 'Z'; ch++ {
+							want[ch] = true
+						}
+						missing, extra := 0, 0
+						for _, i := range marked {
+							if !want[i] {
+								extra++
+							}
+							delete(want, i)
+						}
+						missing = len(want)
+						if missing == 0 && extra == 0 {
+							c.Site(fn.Pos(), "isUpperASCII is set for exactly 'A'..'Z' (table folded from its initialiser)")
+						} else {
+							c.Violation("table:isUpperASCII:range", fn.Pos(), "initIsUpperASCII does not mark exactly 'A'(65)..'Z'(90) (%d letters missing, %d other bytes marked): an ASCII capital outside the marked set is not lower-cased on the index side", missing, extra)
+						}
+						return
+					}
+				}
 				lo, hi, ok := constLoopRange(fn)
 				if !ok {
 					c.Site(fn.Pos(), "initIsUpperASCII is not a single counting loop with constant bounds: this rule does not apply")
@@ -143,7 +179,39 @@ func c11() []*Ob {
 						c.Violation("pair:wordchars:"+FuncName(q), q.Pos(), "index side continues a word on %v but %s on %v: runes in the difference are token characters on one side and separators on the other, so a document's own word does not find it", pi, FuncName(q), pq)
 					}
 				}
-				if init := c.Fn("tokenizer.initIsTextToken"); init != nil {
+				foldedTable := false
+				if init := c.P.Func("tokenizer.initIsTextToken"); init != nil {
+					if cells, folded := c.P.EvalTables(init); folded && len(cells) == 1 {
+						foldedTable = true
+						want := map[int64]bool{'_': true, '*': true}
+						for ch := int64('a'); ch <= 'z'; ch++ {
+							want[ch] = true
+							want[ch-'a'+'A'] = true
+						}
+						for ch := int64('0'); ch <= '9'; ch++ {
+							want[ch] = true
+						}
+						missing, extra := 0, 0
+						for _, m := range cells {
+							for i, v := range m {
+								if v == 0 {
+									continue
+								}
+								if !want[i] {
+									extra++
+								}
+								delete(want, i)
+							}
+						}
+						missing = len(want)
+						if missing == 0 && extra == 0 {
+							c.Site(init.Pos(), "ASCII token table is a-z A-Z 0-9 _ * (table folded from its initialiser)")
+						} else {
+							c.Violation("pair:wordchars:ascii-table", init.Pos(), "the tokenizer's ASCII table is no longer exactly a-z, A-Z, 0-9, '_' and '*' (%d missing, %d extra bytes): it disagrees with the rune classes of the query parsers", missing, extra)
+						}
+					}
+				}
+				if init := c.Fn("tokenizer.initIsTextToken"); init != nil && !foldedTable {
 					got := runeConstsCompared([]*ssa.Function{init}, token.EQL, token.LEQ, token.GEQ, token.LSS, token.GTR)
 					want := []int64{'a', 'z', 'A', 'Z', '0', '9', '_', '*'}
 					ok := true
